@@ -210,8 +210,9 @@ def gen_payload_threshold(rng, size, compressible):
     return h.line()
 
 
-def gen_rollover(rng, nsteps, nsig=2, every=1, splits=()):
-    """nsteps accepted time steps (plus some repeated / backwards timestamps) with sparse changes"""
+def gen_rollover(rng, nsteps, nsig=2, every=1, splits=(), quiet=False):
+    """nsteps accepted time steps (plus some repeated / backwards timestamps) with sparse changes; quiet: no value change in the
+    last steps nor right behind a roll-over (a block that holds nothing but time steps)"""
     types = [f"b{rng.choice([1, 4, 9])}" for _ in range(nsig)]
     h = Hist(rng, types)
     t = rng.choice([0, 5])
@@ -224,7 +225,7 @@ def gen_rollover(rng, nsteps, nsig=2, every=1, splits=()):
         t += rng.choice([1, 1, 3])
         ops.append(f"t{t}")
         acc += 1
-        if acc % every == 0 or acc > nsteps - 3 or (acc % 65535) in (0, 1, 2, 65534):
+        if acc % every == 0 or (not quiet and (acc > nsteps - 3 or (acc % 65535) in (0, 1, 2, 65534))):
             toggle ^= 1
             for i, tp in enumerate(types):
                 w = int(tp[1:])
@@ -235,7 +236,9 @@ def gen_rollover(rng, nsteps, nsig=2, every=1, splits=()):
                     ops.append(f"v{i}:{hexs(('b' + s).encode())}")
         r = rng.random()
         near = (acc % 65535) in (0, 1, 65534)
-        if near:
+        if quiet:
+            r = 0.5
+        elif near:
             # repeated / backwards timestamps exactly at (and next to) the block roll-over
             r = rng.choice([0.0, 0.0007, 0.5])
         if r < 0.0005:
